@@ -184,7 +184,19 @@ def _replay_decl(cls, tag, ct, meth, model_obj):
                 cands.append([a, b])
         cands.append(alltags)
         tried = 0
+        # the contract's precondition: a valid parent, i.e. with its required children (all but the slot being filled) present
+        own_slot = ct.slot_of(rec_child_tag(rec))
+        required = [sl.tags[0] for i, sl in enumerate(ct.slots) if getattr(sl, "min", 0) >= 1 and i != own_slot]
+        completed = []
         for cand in cands:
+            if any(ct.slot_of(t) is None for t in cand):
+                continue
+            have = {ct.slot_of(t) for t in cand}
+            full = list(cand) + [t for t in required if ct.slot_of(t) not in have]
+            order = {id(t_): i for i, t_ in enumerate(full)}
+            full = [t_ for _, _, t_ in sorted(((ct.slot_of(t_), i, t_) for i, t_ in enumerate(full)), key=lambda q: (q[0], q[1]))] if len(full) != len(cand) else list(cand)
+            completed.append(full)
+        for cand in completed:
             ok, _ = native_valid(ct, cand)
             if not ok:
                 continue
